@@ -20,7 +20,7 @@ import time
 
 from . import env, gen
 
-CMD_TIMEOUT = float(os.environ.get("VERIF_CMD_TIMEOUT", "300"))
+CMD_TIMEOUT = float(os.environ.get("VERIF_CMD_TIMEOUT", "600"))
 START_TIMEOUT = 600.0
 
 # ------------------------------------------------------------------ worker side
